@@ -41,7 +41,7 @@ def apply_candidate(d, cand):
         s = open(p).read()
         for old, new in reps:
             if old not in s:
-                raise SystemExit("candidate %s: text not found in %s: %r" % (cand["id"], fn, old[:60]))
+                raise LookupError("candidate %s: text not found in %s: %r" % (cand["id"], fn, old[:60]))
             s = s.replace(old, new, 1)
         open(p, "w").write(s)
 
@@ -84,7 +84,11 @@ def main():
                 apply_patch(d, os.path.join(sd, "patch.diff"))
                 title = sd
             else:
-                apply_candidate(d, cands[i])
+                try:
+                    apply_candidate(d, cands[i])
+                except LookupError as e:
+                    print("%-8s %-10s %s" % ("STALE", i, e))
+                    continue
                 title = cands[i].get("title", "")
             rc, viol, sigs, out, err = run_check(check, d, tier)
             # evidence/replays were written for the mutant: restore happens on next real run
